@@ -16,7 +16,7 @@ OUT=$DST/confirm.log; : > $OUT
 echo "repo HEAD: $(git -C /repo rev-parse --short HEAD)" >> $OUT
 if ! git -C $WT apply $DST/patch.diff 2>>$OUT; then echo "PATCH DOES NOT APPLY to current HEAD" | tee -a $OUT; git -C /repo worktree remove --force $WT; exit 2; fi
 ( cd $WT && PYTHONPATH=$WT /venv/bin/python -m pytest -q -p no:cacheprovider -n 6 tests 2>&1 | tail -1 ) | sed 's/\x1b\[[0-9;]*m//g' | tee -a $OUT
-sed "s#/tmp/w[t23456789]_[A-Za-z0-9]*#$WT#g" $DST/demo.py > $WT/_demo_run.py
+sed "s#/tmp/w[t23456789a]_[A-Za-z0-9]*#$WT#g" $DST/demo.py > $WT/_demo_run.py
 git -C $WT apply -R $DST/patch.diff
 ( cd $WT && PYTHONPATH=$WT timeout 900 /venv/bin/python _demo_run.py > $DST/demo_without.out 2>&1; echo "demo WITHOUT change: exit $?" ) | tee -a $OUT
 git -C $WT apply $DST/patch.diff
